@@ -1,34 +1,73 @@
-import TinsModel.Wire.Iface
+import TinsModel.Wire.Wifi.Dot11
+import TinsModel.Wire.Wifi.Tagged
+import TinsModel.Wire.Wifi.Eapol
+import TinsModel.Wire.Wifi.RadioTap
 /-
-  Family interface of `Wifi` (stub: no class of this family is modelled yet).
-  A family module exports, in namespace `Tins.Wire.Wifi`:
-    Obj, classes, parse, info, hdr, trl, write, mk, apply   (see TinsModel/Wire/Iface.lean)
+  Family interface of `Wifi`: RadioTap (parse / serialize), the Dot11 class family, `Dot11::from_bytes` (entry
+  `Dot11*`), RC4EAPOL, RSNEAPOL, `EAPOL::from_bytes` (entries `EAPOL*` and, as dispatched by
+  `pdu_from_flag(Constants::Ethernet::EAPOL)`, `EAPOL`).
 -/
 namespace Tins.Wire.Wifi
 
 inductive Obj
-  | unit
+  | dot11 (d : Dot11)
+  | eapol (e : Eapol)
+  | radiotap (r : RadioTap)
 deriving Repr
 
 /-- C++ class names whose parsing constructor this family models -/
-def classes : List String := []
+def classes : List String :=
+  dot11Classes ++ ["Dot11*", "RC4EAPOL", "RSNEAPOL", "EAPOL*", "EAPOL", "RadioTap"]
+
+/-- `EAPOL::from_bytes` returns a null pointer for an unknown key-descriptor type.  The shared chain driver has no
+    "null" outcome, so the model hands the line over to a class nobody models: the driver then answers
+    `unmodelled EAPOL:null` and the line is checked by the spec oracle and the sanitizers only. -/
+def eapolNull : String := "EAPOL:null"
 
 /-- the parsing constructor `cls(buffer, total_sz)` (or `from_bytes`) -/
-def parse (_cls : String) (_b : Bytes) : Out (Obj × Inner) := .throw .stdOther
+def parse (cls : String) (b : Bytes) : Out (Obj × Inner) :=
+  if cls == "Dot11*" then (Dot11.fromBytes b) >>= fun (d, i) => pure (.dot11 d, i)
+  else if cls == "RadioTap" then (RadioTap.parse b) >>= fun (r, i) => pure (.radiotap r, i)
+  else if cls == "RC4EAPOL" then (Eapol.parse false b) >>= fun (e, i) => pure (.eapol e, i)
+  else if cls == "RSNEAPOL" then (Eapol.parse true b) >>= fun (e, i) => pure (.eapol e, i)
+  else if cls == "EAPOL*" || cls == "EAPOL" then
+    (Eapol.fromBytes b) >>= fun r =>
+      match r with
+      | some (e, i) => pure (.eapol e, i)
+      | none => pure (.eapol (Eapol.create false), .cls eapolNull [] false)
+  else (Dot11.parse cls b) >>= fun (d, i) => pure (.dot11 d, i)
 
 /-- (actual class name, getter dump) -/
-def info (_o : Obj) : String × Fields := ("", [])
+def info : Obj → String × Fields
+  | .dot11 d => (d.cls, Tagged.fieldsWithDecoded d)
+  | .eapol e => (if e.rsn then "RSNEAPOL" else "RC4EAPOL", e.fields)
+  | .radiotap r => ("RadioTap", r.fields)
 
-def hdr (_o : Obj) : Nat := 0
-def trl (_o : Obj) (_innerSize : Nat) : Nat := 0
+def hdr : Obj → Nat
+  | .dot11 d => d.hdrSize
+  | .eapol e => e.hdrSize
+  | .radiotap r => r.hdrSize
+
+def trl : Obj → Nat → Nat
+  | .radiotap r, _ => r.trl
+  | _, _ => 0
 
 /-- `write_serialization(buffer, total_sz)` on the layer's region -/
-def write (_cx : Ctx) (_o : Obj) (region : Bytes) : Out Bytes := .ok region
+def write (cx : Ctx) : Obj → Bytes → Out Bytes
+  | .dot11 d, region => d.write region
+  | .eapol e, region => e.write region
+  | .radiotap r, region => r.write cx region
 
 /-- public (non-parsing) constructors: `new <cls> args…` -/
-def mk (_cls : String) (_args : List String) : Out Obj := .throw .stdOther
+def mk (cls : String) (args : List String) : Out Obj :=
+  if cls == "RC4EAPOL" then (match args with | [] => .ok (.eapol (Eapol.create false)) | _ => .throw .stdOther)
+  else if cls == "RSNEAPOL" then (match args with | [] => .ok (.eapol (Eapol.create true)) | _ => .throw .stdOther)
+  else (Dot11.construct cls args) >>= fun d => pure (.dot11 d)
 
 /-- one API call on the object: setters, add/remove option … -/
-def apply (_o : Obj) (_op : List String) : Out Obj := .throw .stdOther
+def apply : Obj → List String → Out Obj
+  | .dot11 d, op => (Tagged.apply d op) >>= fun x => pure (.dot11 x)
+  | .eapol e, op => (e.apply op) >>= fun x => pure (.eapol x)
+  | .radiotap _, _ => .throw .stdOther
 
 end Tins.Wire.Wifi
